@@ -246,6 +246,65 @@ def «end» (k : Kind) (z : Zone) (t : Int) : Int :=
   | .fixed d => fixedEnd z d t
   | k => endSec k z (t / NS) * NS
 
+/-! ## Day grids (pure calendar) and executable per-instance midnight checks
+
+Not part of the Go code: the calendar partition each kind is meant to implement, and a decidable check that a
+local midnight is well behaved in a zone (used as the hypothesis of the C12 theorems, see Props/C12.lean, and
+evaluated by the driver). -/
+
+/-- A partition of the day numbers into periods: `gs L` = first day of the period containing day `L`,
+`gn P` = first day of the period following the one that starts on `P`. -/
+structure DayGrid where
+  gs : Int → Int
+  gn : Int → Int
+
+def dayGrid : DayGrid := ⟨fun L => L, fun P => P + 1⟩
+/-- weeks start on Monday (day 0 = 1970-01-01 is a Thursday, so Mondays are the days ≡ 4 mod 7) -/
+def weekGrid : DayGrid := ⟨fun L => L - (L + 3) % 7, fun P => P + 7⟩
+/-- periods of `k` months starting at month indices divisible by `k` (k = 1, 3, 6, 12) -/
+def monthsGrid (k : Int) : DayGrid :=
+  ⟨fun L => monthStart (k * (monthIdx L / k)), fun P => monthStart (monthIdx P + k)⟩
+
+def gridOf : Kind → DayGrid
+  | .fixed _ => dayGrid
+  | .day => dayGrid
+  | .week => weekGrid
+  | .month => monthsGrid 1
+  | .quarter => monthsGrid 3
+  | .half => monthsGrid 6
+  | .year => monthsGrid 12
+
+/-- `time.Date(<day D>, 00:00:00, loc)` as unix seconds -/
+def mid (z : Zone) (D : Int) : Int := goDateSec z (D * 86400)
+
+/-- On the zone segment `[lo, hi)` (`none` = unbounded) with constant offset `off`:
+`m ≤ s + off ↔ c ≤ s` for every `s` of the segment. -/
+def segAgree (m c off : Int) (lo hi : Option Int) : Bool :=
+  m - off == c ||
+  (match lo with | some lo => decide (m - off ≤ lo) && decide (c ≤ lo) | none => false) ||
+  (match hi with | some hi => decide (hi ≤ m - off) && decide (hi ≤ c) | none => false)
+
+def iffOKFrom (m c off : Int) (lo : Option Int) : List (Int × Int) → Bool
+  | [] => segAgree m c off lo none
+  | (w, o) :: rest => segAgree m c off lo (some w) && iffOKFrom m c o (some w) rest
+
+/-- Decides (soundly, `checkMid_sound`) that local midnight of day `D` is well behaved in `z`: `time.Date` returns
+an instant showing exactly `D 00:00:00`, and the local date is `≥ D` exactly from that instant on. -/
+def checkMid (z : Zone) (D : Int) : Bool :=
+  localSecs z (mid z D) == D * 86400 && iffOKFrom (D * 86400) (mid z D) z.init none z.trans
+
+/-- The per-instance hypothesis of the C12 laws at instant `t` (nanoseconds): the local midnights of the period's
+start day and of the next period's start day are well behaved (and, for weeks, the `AddDate` intermediate stays on
+the Monday it asks for). -/
+def checkAt (k : Kind) (z : Zone) (t : Int) : Bool :=
+  match k with
+  | .fixed _ => true
+  | k =>
+    let s := t / NS
+    let P := (gridOf k).gs (localDay z s)
+    checkMid z P && checkMid z ((gridOf k).gn P) &&
+      (k != .week || localDay z (goDateSec z (P * 86400 + secOfDay z s)) == P)
+
 /-! ## AlignedTimestampsStream (alignment_period.go:26-43) -/
 
 /-- The generator closure: state `cur`; each pull returns `cur` and advances with `end`, EOF when
